@@ -521,7 +521,8 @@ def c05_scenario(rep, rng, scratch, idx):
         # a run that vanished without exit line, without any signal, while watchexec was alive: it was killed
         t_now = mono()
         for r in rs[:-1]:
-            if r["exit"] is None and not r["signals"] and not proc_alive(r["pid"]):
+            # with a zero stop timeout the kill follows the stop signal at once: the command may die before it logs it
+            if r["exit"] is None and not r["signals"] and not proc_alive(r["pid"]) and not (mode == "restart" and stop_timeout < 100):
                 V.append(("C05/%s/run-killed-without-signal" % mode, "run pid %d disappeared without an exit line and without having been signalled" % r["pid"]))
         nwrites = sum(c[2] for c in wx.changes)
         if len(rs) > 1 + nwrites:
@@ -565,11 +566,12 @@ def c08_cli_tail(rep, rng, wx, desc, V):
     time.sleep(0.1)
     lines = wx.lines()
     for r in running:
-        sigs = [s for t, s in runs_of(lines)[[x["pid"] for x in runs_of(lines)].index(r["pid"])]["signals"] if t >= t0]
+        # a graceful stop may already be in progress (restart mode): the signal then precedes the shutdown request
+        sigs = [s for t, s in runs_of(lines)[[x["pid"] for x in runs_of(lines)].index(r["pid"])]["signals"] if t >= t0 - (stop_timeout + 300) * 1e6]
         want = {"SIGUSR2": 12, "SIGINT": 2, "SIGHUP": 1}.get(desc.get("stop_signal"), 15)
         if desc.get("mode", "").startswith("signal"):
             want = {"SIGUSR2": 12, "SIGINT": 2, "SIGHUP": 1}.get(desc.get("stop_signal"), 15)
-        if took is not None and want not in sigs:
+        if took is not None and want not in sigs and stop_timeout >= 100:
             V.append(("C08/cli/no-stop-signal", "the running command did not receive signal %d when watchexec was told to %s (saw %s)" % (want, sig.name, sigs)))
     t1 = time.time()
     surv = []
